@@ -28,7 +28,7 @@ RULES = [
     "duplicate-type-name", "duplicate-field-name", "duplicate-enumerator", "duplicate-constant", "duplicate-discriminator",
     "duplicate-arm-name", "array-size-zero", "array-size-negative", "limit-zero", "enumerator-above-32-bits",
     "enumerator-negative", "discriminator-above-32-bits", "discriminator-negative", "array-in-union-arm",
-    "optional-in-union-arm", "optional-array", "optional-bytes",
+    "optional-in-union-arm", "optional-array", "optional-bytes", "sizer-non-integer-typedef", "sizer-typedef-of-enum",
 ]
 
 
@@ -38,11 +38,47 @@ def make_plan(tape, prop):
     plan["rule"] = RULES[tape.draw(len(RULES))]
     plan["pick"] = tape.draw(1 << 10)
     plan["compile_cpp"] = tape.chance(1, 12)
+    # stale compiler state as an injected fault: a LEGAL twin of the rule breaker (same names, legal meaning) goes through
+    # the same compiler process just before (1) or just after (2) it
+    plan["twin"] = tape.draw(3)
     return plan
 
 
-def breaker(rule, schema, pick):
-    """one definition (plus helper definitions it needs) breaking exactly the named rule"""
+TWINS = {
+    "greedy-not-last": "struct XB { u8 after; u8 g<...>; };",
+    "sizer-missing": "struct XB { u8 nope; u8 x<@nope>; };",
+    "sizer-after-array": "struct XB { u8 n; u8 x<@n>; };",
+    "sizer-optional": "struct XB { u8 n; u8 x<@n>; };",
+    "sizer-non-integer": "struct XB { u32 n; u8 x<@n>; };",
+    "sizer-non-integer-typedef": "typedef u16 XT;\nstruct XB { XT n; u8 x<@n>; };",
+    "sizer-typedef-of-enum": "typedef i32 XE;\ntypedef XE XT;\nstruct XB { XT n; u8 x<@n>; };",
+    "sizer-is-enum": "typedef u8 XE;\nstruct XB { XE n; u8 x<@n>; };",
+    "duplicate-type-name": "",
+    "duplicate-field-name": "struct XB { u8 a; u16 b; };",
+    "duplicate-enumerator": "enum XB { XB_A = 1, XB_B = 2 };",
+    "duplicate-constant": "const XK = 1;",
+    "duplicate-discriminator": "union XB { 1: u8 a; 2: u16 b; };",
+    "duplicate-arm-name": "union XB { 1: u8 a; 2: u16 b; };",
+    "array-size-zero": "struct XB { u8 a[1]; };",
+    "array-size-negative": "struct XB { u8 a[2 - 1]; };",
+    "limit-zero": "struct XB { u8 a<1>; };",
+    "enumerator-above-32-bits": "enum XB { XB_A = 4294967295 };",
+    "enumerator-negative": "enum XB { XB_A = 1 };",
+    "discriminator-above-32-bits": "union XB { 4294967295: u8 a; };",
+    "discriminator-negative": "union XB { 1: u8 a; };",
+    "optional-bytes": "struct XB { u8* b; };",
+}
+
+
+def _fixed_twin(text):
+    """the helper definitions with every variable-length array made a fixed one: same names, FIXED stiffness"""
+    import re
+    return re.sub(r"<(\.\.\.|@\w+)?>", "[2]", text)
+
+
+def breaker(rule, schema, pick, twin=False, helpers_only=False):
+    """one definition (plus helper definitions it needs) breaking exactly the named rule; twin=True: the legal twin
+    of that text (same type and member names, but nothing in it breaks a rule), or None when there is none"""
     R = rt.Resolved(schema)
     dyn = [n for n in R.order if R.types[n].cat == "struct" and R.types[n].stiff == rt.DYNAMIC]
     unl = [n for n in R.order if R.types[n].cat == "struct" and R.types[n].stiff == rt.UNLIMITED]
@@ -59,6 +95,8 @@ def breaker(rule, schema, pick):
         "XUnlDyn": "struct XUnl { u8 g<...>; };\nstruct XUnlDyn { u16 ids<>; XUnl t; };\n",
         "XUnlExt": "struct XUnl { u8 g<...>; };\nstruct XUnlExt { u8 n; u16 ids<@n>; XUnl t; };\n",
     }
+    if twin or helpers_only:
+        dyn, unl = [], []          # a twin re-defines the helper types, so it needs helper types
     dyn = dyn + ["XDyn", "XDynNest", "XDynT", "XDynExt"]
     unl = unl + ["XUnl", "XUnlNest", "XUnlT", "XUnlDyn", "XUnlExt"]
     D, U = dyn[pick % len(dyn)], unl[(pick // 7) % len(unl)]
@@ -86,6 +124,8 @@ def breaker(rule, schema, pick):
         "sizer-optional": "struct XB { u8* n; u8 x<@n>; };",
         "sizer-non-integer": "struct XB { float n; u8 x<@n>; };",
         "sizer-is-enum": "enum XE { XE_A = 1 }; struct XB { XE n; u8 x<@n>; };",
+        "sizer-non-integer-typedef": "typedef %s XT;\nstruct XB { XT n; u8 x<@n>; };" % ["float", "double"][pick % 2],
+        "sizer-typedef-of-enum": "enum XE { XE_A = 1 };\ntypedef XE XT;\nstruct XB { XT n; u8 x<@n>; };",
         "duplicate-type-name": "struct %s { u8 a; };" % existing[pick % len(existing)],
         "duplicate-field-name": "struct XB { u8 a; u16 a; };",
         "duplicate-enumerator": "enum XB { XB_A = 1, XB_A = 2 };",
@@ -106,6 +146,10 @@ def breaker(rule, schema, pick):
     }[rule]
     if body is None:
         return None
+    if twin:
+        if rule in TWINS:
+            return TWINS[rule] + "\n"
+        return _fixed_twin(pre) + body + "\n"
     return pre + body + "\n"
 
 
@@ -127,22 +171,54 @@ class RulesRun(object):
             return Violation("C12", tag, ck, 0, msg)
         return None
 
+    def compile_twin(self, fs, rule, text, when):
+        """the legal twin of the rule breaker through the same compiler process: must be accepted and importable"""
+        fs.mkdir("/w/twin")
+        fs.put("/w/twin/s.prophy", text)
+        nodes, exc, so, se = simworld.run_prophyc(fs, ["--python_out", "/w/twin", "--cpp_out", "/w/twin",
+                                                       "--cpp_full_out", "/w/twin", "/w/twin/s.prophy"])
+        self.faults["legal-twin-" + when] = self.faults.get("legal-twin-" + when, 0) + 1
+        self.trace.append("legal twin compiled %s the rule breaker" % when)
+        if exc is not None:
+            return self.v("valid-rejected", "C12/valid-schema-rejected/twin-%s/%s/%s" % (when, type(exc).__name__, _msgkey(exc)),
+                          "the legal twin of rule '%s' (compiled %s the rule breaker in the same process) was rejected: "
+                          "%s: %s\n%s" % (rule, when, type(exc).__name__, str(exc)[:300], text[-400:]))
+        try:
+            simworld.import_generated({"s": fs.get("/w/twin/s.py")})
+        except Exception as e:
+            return self.v("import", "C12/accepted-but-python-import-fails/twin/%s/%s" % (type(e).__name__, _msgkey(e)),
+                          "legal twin of rule '%s' accepted but the generated Python module does not import: %s: %s\n%s" %
+                          (rule, type(e).__name__, str(e)[:300], text[-400:]))
+        self.count("twin_" + when)
+        return None
+
     def run(self):
         plan = self.plan
         rule = plan["rule"]
         text = render.prophy_text(plan["schema"])
-        extra = None if rule == "valid" else breaker(rule, plan["schema"], plan["pick"])
+        twin_mode = plan.get("twin", 0)
+        extra = None if rule == "valid" else breaker(rule, plan["schema"], plan["pick"], helpers_only=bool(twin_mode))
         if rule != "valid" and extra is None:
             rule = "valid"
+        twin = breaker(rule, plan["schema"], plan["pick"], twin=True) if rule != "valid" and twin_mode else None
+        valid_text = text
         if extra:
             text = text + "\n" + extra
         self.text = text
         fs = simfs.FakeFS("/w")
         fs.mkdir("/w/out")
         fs.put("/w/s.prophy", text)
+        if twin is not None and twin_mode == 1:
+            v = self.compile_twin(fs, rule, valid_text + "\n" + twin, "before")
+            if v:
+                return v
         argv = ["--python_out", "/w/out", "--cpp_out", "/w/out", "--cpp_full_out", "/w/out", "/w/s.prophy"]
         nodes, exc, so, se = simworld.run_prophyc(fs, argv)
         self.trace.append("rule: %s" % rule)
+        if twin is not None and twin_mode == 2 and exc is not None and type(exc).__name__ == "ProphycError":
+            v = self.compile_twin(fs, rule, valid_text + "\n" + twin, "after")
+            if v:
+                return v
         self.log.update((rule + hashlib.sha1(text.encode()).hexdigest()).encode())
         self.faults[rule] = self.faults.get(rule, 0) + 1
         self.states.add(rule)
